@@ -4,6 +4,7 @@
  *
  *   o <0|1>                         gd_open (0 = GD_RDONLY, 1 = GD_RDWR)      -> "o <err>"
  *   x                               gd_discard + reopen with the same flags   -> "x <err>"
+ *   X                               gd_close + reopen with the same flags     -> "X <err>"
  *   g <field> <start|H> <n> <type>  gd_getdata64(field, 0, start, 0, n, type) -> "g <n> <err> v.."
  *   p <field> <start|H> <n> <type> v1..vn   gd_putdata64                      -> "p <n> <err>"
  *   s <field> <off> <S|C|E> <0|1>   gd_seek64(field, 0, off, whence [|WRITE]) -> "s <ret> <err>"
@@ -114,6 +115,11 @@ int main(int argc, char **argv)
         flags = (nt > 1 && atoi(tok[1])) ? GD_RDWR : GD_RDONLY;
         D = gd_open(path, flags);
         printf("o %d", gd_error(D)); eol();
+        break;
+      case 'X':
+        if (D) gd_close(D);
+        D = gd_open(path, flags);
+        printf("X %d", gd_error(D)); eol();
         break;
       case 'x':
         if (D) gd_discard(D);
